@@ -25,6 +25,7 @@ import bisect
 import hashlib
 from collections import Counter
 
+from happysimulator.components.network.conditions import datacenter_network, local_network, lossy_network, slow_network
 from happysimulator.components.network.link import NetworkLink
 from happysimulator.components.network.network import Network
 from happysimulator.components.resource import Resource
@@ -308,6 +309,16 @@ def validate(sc: dict) -> None:
                 if (l["a"], l["b"]) in seen or int(l["base_us"]) < 1 or not 0.0 <= l["loss"] < 1.0:
                     raise InvalidScenario("link")
                 seen.add((l["a"], l["b"]))
+                fac = l.get("factory")
+                if fac not in (None, "datacenter", "local", "slow", "lossy") or (fac == "datacenter" and l["base_us"] != 600) \
+                        or (fac == "local" and l["base_us"] != 100) or (fac in ("datacenter", "local", "slow") and l["loss"] != 0.0):
+                    raise InvalidScenario("factory link parameters")
+            if net.get("bidir"):
+                by = {(l["a"], l["b"]): l for l in net["links"]}
+                for (a, b), l in by.items():
+                    r = by.get((b, a))
+                    if r is None or (r["base_us"], r["loss"], r.get("factory")) != (l["base_us"], l["loss"], l.get("factory")):
+                        raise InvalidScenario("bidirectional build needs both directions with equal parameters")
         for f in faults:
             k = f["kind"]
             if k not in FAULT_KINDS or f.get("cancel", "never") not in CANCEL_MODES:
@@ -452,13 +463,18 @@ class FaultWorld:
                 self.nets[netname] = nw
                 for l in net["links"]:
                     a, b = nn[l["a"]], nn[l["b"]]
-                    lat = ConstantLatency(l["base_us"] / 1e6)
-                    # link names are labels, not identifiers (every datacenter_network() link is "datacenter")
-                    lname = "dc" if sc.get("same_names") else f"{netname}:{a.name}->{b.name}"
-                    link = NetworkLink(name=lname, latency=lat, packet_loss_rate=l["loss"])
-                    nw.add_link(a, b, link)
+                    if net.get("bidir"):
+                        # the Network module's own helper: one link object, the reverse direction is a shallow copy
+                        if l["a"] < l["b"]:
+                            nw.add_bidirectional_link(a, b, self._mk_link(l, f"{netname}:{a.name}<->{b.name}"))
+                        link = nw.get_link(a.name, b.name)
+                        if link is None:
+                            raise InvalidScenario("bidir link without its forward entry")
+                    else:
+                        link = self._mk_link(l, f"{netname}:{a.name}->{b.name}")
+                        nw.add_link(a, b, link)
                     self.links[(netname, a.name, b.name)] = link
-                    self.link_cfg[(netname, a.name, b.name)] = (lat, l["loss"], ns_of_ms(l["base_us"] / 1000.0))
+                    self.link_cfg[(netname, a.name, b.name)] = (link.latency, l["loss"], ns_of_ms(l["base_us"] / 1000.0))
                 ents.append(nw)
             drain_ns = max(drain_ns, max((l["base_us"] for l in net["links"]), default=0) * 1000
                            + sum(f["extra_ms"] for f in sc["faults"] if f["kind"] == "latency") * 1_000_000)
@@ -564,6 +580,21 @@ class FaultWorld:
         evs.append(Event(time=Instant(self.sim_end_ns - 1), event_type="tick", target=self.tick))
         sim.schedule(evs)
         self.n_scheduled = len(evs)
+
+    def _mk_link(self, l: dict, label: str) -> NetworkLink:
+        """A link from the repo's condition factories (their default names: every datacenter link is called
+        "datacenter") or a plain NetworkLink; link names are labels, not identifiers."""
+        fac = l.get("factory")
+        if fac == "datacenter":
+            return datacenter_network()          # 0.5 ms + 0.1 ms constant jitter, 10 Gbps (probes carry no payload)
+        if fac == "local":
+            return local_network()               # 0.1 ms
+        if fac == "slow":
+            return slow_network(l["base_us"] / 1e6)
+        if fac == "lossy":
+            return lossy_network(l["loss"], base_latency=l["base_us"] / 1e6)
+        return NetworkLink(name="dc" if self.sc.get("same_names") else label,
+                           latency=ConstantLatency(l["base_us"] / 1e6), packet_loss_rate=l["loss"])
 
     def _all_bounds_for_node(self, i: int) -> set:
         out = set()
